@@ -109,7 +109,7 @@ func vfC07GenSize(rt *rapid.T, eff int64, label string, thorough bool) int {
 	if e <= 65536 {
 		pool = append(pool, 3*e, e+100000)
 	} else {
-		pool = append(pool, 1000, 1000, 0) // the 4 MiB default: fewer of the expensive boundary bodies
+		pool = []int{0, 1000, 1000, 1000, e - 1, e, e + 1} // the 4 MiB default: fewer of the expensive boundary bodies
 	}
 	n := rapid.SampledFrom(pool).Draw(rt, label+"-size")
 	if n < 0 {
@@ -367,7 +367,8 @@ func vfC07Judge(rt *rapid.T, vf *vfCollector, rig *vfxRig, cfg *vfxCfg, k vfC07C
 			switch {
 			case resp.Status == k.Status && len(seen) > len(k.Pre):
 				vf.Class("req-retried-to-success")
-			case eff < 0 && len(seen) == 1 && (resp.Status == 502 || resp.Status == 503):
+			case eff < 0 && len(seen) == 1 && resp.Status >= 500:
+				// 502/503 of the failed attempt, or 500 when that tiny failure response is itself over serverMaxBodySize
 				vf.Class("req-stream-upload-not-retried")
 			default:
 				return fail("req-retry-outcome", "request body of %d bytes (%s), limit %d, scripted failing attempts %v with a %d-attempt retry policy: backend saw %d attempts, client got %d (final backend answer %d)", k.Size, k.Encoding, eff, k.Pre, cfg.RetryAttempts, len(seen), resp.Status, k.Status)
